@@ -244,6 +244,27 @@ Proof.
   unfold grun. cbn [fold_left]. apply IH; [apply gstep_inv; assumption | assumption].
 Qed.
 
+(** how the lower end of the covered window moves: an accepted block num with the limit L' of the
+    state after it pushes it to at least num+1-L'; a refused header leaves it alone.  Hence coverage
+    of the window is inherited by the next header unless the limit grows by more than one. *)
+Lemma g_lo_step g now h :
+  match update_client (g_st g) now h with
+  | Some st' => g_st (gstep g (now, h)) = st' /                g_lo (gstep g (now, h)) = N.max (g_lo g) (h_num h + 1 - seal_limit st')
+  | None => gstep g (now, h) = g
+  end.
+Proof.
+  unfold gstep. cbn [fst snd]. destruct (update_client (g_st g) now h) as [st'|] eqn:U; [|reflexivity].
+  apply update_client_iff in U. destruct U as [_ [s [[_ [_ [_ [_ [R _]]]]] _]]]. rewrite R. split; reflexivity.
+Qed.
+
+Lemma window_cover_step g now h st' : update_client (g_st g) now h = Some st' ->
+  g_lo g + seal_limit (g_st g) <= h_num h + 1 ->
+  seal_limit st' <= seal_limit (g_st g) + 1 ->
+  g_lo (gstep g (now, h)) + seal_limit st' <= (h_num h + 1) + 1.
+Proof.
+  intros U C L. pose proof (g_lo_step g now h) as S. rewrite U in S. destruct S as [_ ->]. lia.
+Qed.
+
 (* ---------------------------------------------------------------- snapshot under the invariant *)
 
 Lemma snap_recents_ginv g hh a : ginv g ->
